@@ -46,6 +46,7 @@ func init() {
 			return nil
 		},
 		"vTier": func(fr *frame, args []value) value { return Tier },
+		"vBudgetOK": func(fr *frame, args []value) value { fr.i.path.budgetOK = true; return nil },
 		"vBudgetHit": nil,
 	}
 	delete(intrinsics, "vBudgetHit")
